@@ -7,19 +7,22 @@
    from, under which options) is the environment: its statement about the file is the list
    of blame groups `es` that print_line_porcelain prints.
 
-   Full-strength statement (every history, every file):
-       forall o notes foreign path es, wf_entries es = true ->
-         blame_lines o notes foreign path (print_line_porcelain es)
+   Full-strength statement (every history, every file), C09_overlay_spec:
+       forall dq o notes foreign path es, wf_entries es = true -> names_agree dq es ->
+         blame_lines dq o notes foreign path (print_line_porcelain es)
          = Ok (map (spec_line o notes foreign) (glines es))
    where spec_line looks a line up in the note of its commit under the path the file had IN THAT
    COMMIT (porcelain `filename`) and its original line number, last listing entry with a prompt
-   record winning.  It is FALSE of the faithful model (C09_rename_refuted: a file renamed without an
-   edit -- the code looks the note up under the REQUESTED path and never reads `filename`).
-   C09_overlay_spec is the statement outside the known class Known_C09 (some line's path in its
-   commit differs from the requested path); C09_overlay_requested_path says what the code computes
-   in general.  Two further deviations of the command line from git are stated as facts of the
-   model: an empty file is rejected (C09_empty_file_rejected; git prints nothing and exits 0) and
-   `-L n` is read as n,n (C09_single_number_range; git reads it as n to the end of the file). *)
+   record winning.  The requested path plays no role (C09_path_independent): renaming a file without
+   editing it changes no line's attribution.  [Before the repair of the lookup path this statement
+   was false of the code: the note was looked up under the requested path and `filename` was never
+   read.]  names_agree is the environment fact that utils::unescape_git_path undoes git's C-style
+   quoting of the paths it prints (its quoted branch is the parameter dq; monitored on every real
+   porcelain text).
+   -L arguments: `n` is n to the end of the file and `n,+k` is k lines from n, as git reads them
+   (C09_single_number_range, C09_plus_count_range).  One deviation of the command line from git
+   remains and is stated as a fact of the model: an empty file is rejected
+   (C09_empty_file_rejected; git prints nothing and exits 0; an existing test pins the error). *)
 From Coq Require Import List NArith Bool.
 From Verif Require Import Base.Str Base.RangeSet Gen.GenBlame Model.Serial Model.Blame Proofs.BlameProofs.
 Import ListNotations.
@@ -27,8 +30,8 @@ Open Scope N_scope.
 
 (* every line is assigned the commit, original line and final line that git printed *)
 Theorem C09_porcelain_roundtrip :
-  forall es, wf_entries es = true ->
-    parse_line_porcelain (print_line_porcelain es) = Ok (map hunk_of_entry es).
+  forall dq es, wf_entries es = true -> names_agree dq es ->
+    parse_line_porcelain dq (print_line_porcelain es) = Ok (map hunk_of_entry es).
 Proof. exact porcelain_roundtrip. Qed.
 Print Assumptions C09_porcelain_roundtrip.
 
@@ -70,33 +73,23 @@ Theorem C09_not_listed_is_human :
 Proof. exact not_listed_is_human. Qed.
 Print Assumptions C09_not_listed_is_human.
 
-(* the pipeline on git's output = the specification, when no line's path differs from the request *)
+(* the pipeline on git's output = the specification, whatever path was requested *)
 Theorem C09_overlay_spec :
-  forall o notes foreign path es,
-    wf_entries es = true ->
-    (forall x, In x (glines es) -> gl_filename x = path) ->
-    blame_lines o notes foreign path (print_line_porcelain es)
+  forall dq o notes foreign path es,
+    wf_entries es = true -> names_agree dq es ->
+    blame_lines dq o notes foreign path (print_line_porcelain es)
     = Ok (map (spec_line o notes foreign) (glines es)).
 Proof. exact overlay_spec. Qed.
 Print Assumptions C09_overlay_spec.
 
-Theorem C09_overlay_requested_path :
-  forall o notes foreign path es,
-    wf_entries es = true ->
-    blame_lines o notes foreign path (print_line_porcelain es)
-    = Ok (map (fun x => spec_line o notes foreign
-                          (mkGline (gl_final x) (gl_orig x) (gl_sha x) (gl_author x) (gl_boundary x) path))
-              (glines es)).
-Proof. exact overlay_requested_path. Qed.
-Print Assumptions C09_overlay_requested_path.
-
-Theorem C09_rename_refuted :
-  exists o notes foreign path es,
-    wf_entries es = true /\ Known_C09 path es /\
-    blame_lines o notes foreign path (print_line_porcelain es)
-    <> Ok (map (spec_line o notes foreign) (glines es)).
-Proof. exact rename_refuted. Qed.
-Print Assumptions C09_rename_refuted.
+(* renaming a file without editing it changes no line's attribution *)
+Theorem C09_path_independent :
+  forall dq o notes foreign path path' es,
+    wf_entries es = true -> names_agree dq es ->
+    blame_lines dq o notes foreign path (print_line_porcelain es)
+    = blame_lines dq o notes foreign path' (print_line_porcelain es).
+Proof. exact path_independent. Qed.
+Print Assumptions C09_path_independent.
 
 (* --json: expanding the a-b keys gives back the AI lines, also under a -L restriction *)
 Theorem C09_json_expand :
@@ -149,25 +142,30 @@ Proof. exact empty_file_rejected. Qed.
 Print Assumptions C09_empty_file_rejected.
 
 Theorem C09_single_number_range :
-  forall n, n <= u32_max -> parse_line_range (print_N n) = Some (n, n).
+  forall n total, 1 <= n -> n <= total -> total < u32_max ->
+    exists r, parse_line_range (print_N n) = Some r /\ prepare_ranges total [r] = Ok [(n, total)].
 Proof. exact single_number_range. Qed.
 Print Assumptions C09_single_number_range.
+
+Theorem C09_plus_count_range :
+  forall n k, 1 <= k -> k <= u32_max -> n + (k - 1) <= u32_max ->
+    parse_line_range (print_N n ++ [c_comma; c_plus] ++ print_N k) = Some (n, n + (k - 1)).
+Proof. exact plus_count_range. Qed.
+Print Assumptions C09_plus_count_range.
 
 (* ---- non-vacuity ---- *)
 Example C09_nonvacuous :
   wf_entries w_plain = true
-  /\ (forall x, In x (glines w_plain) -> gl_filename x = w_f)
-  /\ blame_lines w_opts w_notes w_foreign w_f (print_line_porcelain w_plain)
+  /\ names_agree w_dq w_plain
+  /\ blame_lines w_dq w_opts w_notes w_foreign w_f (print_line_porcelain w_plain)
      = Ok [mkOline 1 w_user None; mkOline 2 w_h1 (Some w_h1); mkOline 3 w_h2 (Some w_h2);
            mkOline 4 w_user None; mkOline 5 w_user None].
 Proof. exact nonvacuous_plain. Qed.
 
-Example C09_rename_all_human :
-  blame_lines w_opts w_notes w_foreign w_g (print_line_porcelain w_renamed)
-  = Ok [mkOline 1 w_user None; mkOline 2 w_user None; mkOline 3 w_user None; mkOline 4 w_user None]
-  /\ map (spec_line w_opts w_notes w_foreign) (glines w_renamed)
-     = [mkOline 1 w_user None; mkOline 2 w_h1 (Some w_h1); mkOline 3 w_h2 (Some w_h2); mkOline 4 w_user None].
-Proof. exact rename_all_human. Qed.
+Example C09_rename_keeps_attribution :
+  blame_lines w_dq w_opts w_notes w_foreign w_g (print_line_porcelain w_renamed)
+  = Ok [mkOline 1 w_user None; mkOline 2 w_h1 (Some w_h1); mkOline 3 w_h2 (Some w_h2); mkOline 4 w_user None].
+Proof. exact rename_keeps_attribution. Qed.
 
 Example C09_nonvacuous_json :
   json_lines (ai_lines [(1, w_user); (2, w_h1); (3, w_h1); (4, w_h2); (6, w_h2)] [w_h1; w_h2])
@@ -175,7 +173,7 @@ Example C09_nonvacuous_json :
 Proof. exact nonvacuous_json. Qed.
 
 Example C09_nonvacuous_split :
-  blame_hunks w_opts w_notes w_foreign w_f (print_line_porcelain w_plain)
-  = Ok [mkHunk 1 1 1 1 w_sha1 w_user true None; mkHunk 2 2 2 2 w_sha1 w_user true (Some w_user);
-        mkHunk 3 4 3 4 w_sha1 w_user true None; mkHunk 5 5 1 1 w_sha2 w_user false None].
+  blame_hunks w_dq w_opts w_notes w_foreign w_f (print_line_porcelain w_plain)
+  = Ok [mkHunk 1 1 1 1 w_sha1 w_user true None w_f; mkHunk 2 2 2 2 w_sha1 w_user true (Some w_user) w_f;
+        mkHunk 3 4 3 4 w_sha1 w_user true None w_f; mkHunk 5 5 1 1 w_sha2 w_user false None w_f].
 Proof. exact nonvacuous_split. Qed.
